@@ -54,7 +54,8 @@ func checkGate(c *ctx, rule string, fn *ssa.Function, errIdx int, callee string,
 	}
 	var gate *ssa.Call
 	for _, b := range blocks {
-		call, ok := core.HasCallFact(core.TFactsAt(b, 0), true, callee)
+		// depth 1: `err == nil` for a private helper the first part was factored into carries the helper's gate
+		call, ok := core.HasCallFact(gateFacts(fn, b), true, callee)
 		if !ok {
 			c.r.Bad(rule, key, c.fpos(fn), fmt.Sprintf("the non-error return in block %d (%s) is reachable without a successful %s", b.Index, c.pos(b.Instrs[len(b.Instrs)-1]), shortName(callee)))
 			return nil
@@ -62,6 +63,12 @@ func checkGate(c *ctx, rule string, fn *ssa.Function, errIdx int, callee string,
 		gate = call
 	}
 	args := callArgTerms(gate)
+	if gate.Parent() != fn {
+		args = nil
+		for _, a := range gate.Call.Args {
+			args = append(args, core.FrameTerm(fn, a))
+		}
+	}
 	for i, pi := range argParams {
 		if pi < 0 || i >= len(args) {
 			continue
@@ -73,6 +80,18 @@ func checkGate(c *ctx, rule string, fn *ssa.Function, errIdx int, callee string,
 	}
 	c.r.OK(rule, key, c.pos(gate), "true edge of "+shortName(callee)+" dominates every non-error return; arguments are the function's own parameters")
 	return gate
+}
+
+// gateFacts: the facts at b, and those a successful private helper of fn (same package, unexported)
+// establishes for its caller.
+func gateFacts(fn *ssa.Function, b *ssa.BasicBlock) []core.TFact {
+	var out []core.TFact
+	for _, f := range core.TFactsAt(b, 1) {
+		if f.Via == "" || f.Call == nil || core.PrivateHelper(f.Call.Parent()) && f.Call.Parent().Pkg == fn.Pkg {
+			out = append(out, f)
+		}
+	}
+	return out
 }
 
 func shortName(n string) string {
@@ -153,35 +172,47 @@ func c13Mask(c *ctx) {
 		if name == "BobMidWC" {
 			prove = "~/crypto/mta.ProveBobWC"
 		}
-		encs := core.CallsTo(fn, "(*~/crypto/paillier.PublicKey).EncryptAndReturnRandomness")
-		pvs := core.CallsTo(fn, prove)
-		mults := core.CallsTo(fn, "(*~/crypto/paillier.PublicKey).HomoMult")
-		adds := core.CallsTo(fn, "(*~/crypto/paillier.PublicKey).HomoAdd")
+		// the function and the private helpers it is factored into are read as one body
+		callsTo := func(name string) []ssa.CallInstruction {
+			var out []ssa.CallInstruction
+			for _, g := range unitFuncs(fn) {
+				if g.Parent() == nil {
+					out = append(out, core.CallsTo(g, name)...)
+				}
+			}
+			return out
+		}
+		rv := func(v ssa.Value) ssa.Value { return core.ResolveIn(fn, v) }
+		rt := func(v ssa.Value) *T { return core.FrameTerm(fn, v) }
+		encs := callsTo("(*~/crypto/paillier.PublicKey).EncryptAndReturnRandomness")
+		pvs := callsTo(prove)
+		mults := callsTo("(*~/crypto/paillier.PublicKey).HomoMult")
+		adds := callsTo("(*~/crypto/paillier.PublicKey).HomoAdd")
 		key := fkey(rule, fn, "one-mask")
 		if len(encs) != 1 || len(pvs) != 1 || len(mults) != 1 || len(adds) != 1 {
 			c.r.Bad(rule, key, c.fpos(fn), fmt.Sprintf("expected one Encrypt/Prove/HomoMult/HomoAdd call each, found %d/%d/%d/%d", len(encs), len(pvs), len(mults), len(adds)))
 			continue
 		}
 		enc, pv, mult, add := encs[0].(*ssa.Call), pvs[0].(*ssa.Call), mults[0].(*ssa.Call), adds[0].(*ssa.Call)
-		mask := core.Strip(enc.Call.Args[2])
+		mask := rv(enc.Call.Args[2])
 		// sampled below q^5 from the function's rand parameter
 		samp, isS := core.IsCallTo(mask, "~/common.GetRandomPositiveInt")
-		okS := isS && curveOrderPow(5)(core.TermOf(samp.Call.Args[1])) && core.TermOf(samp.Call.Args[0]).Key() == paramTerm(fn, len(fn.Params)-1).Key()
+		okS := isS && curveOrderPow(5)(rt(samp.Call.Args[1])) && rt(samp.Call.Args[0]).Key() == paramTerm(fn, len(fn.Params)-1).Key()
 		c.r.Check(okS, rule, fkey(rule, fn, "mask<q^5"), c.pos(enc), "mask = GetRandomPositiveInt(rand, q^5)", "the mask is not a fresh sample below q^5 from the rand parameter")
 		// ProveBob(Session, ec, pkA, NTildeA, h1A, h2A, c1=cA, c2=cB, x=b, y=mask, r=cRand, …)
 		pargs := pv.Call.Args
-		okY := core.Strip(pargs[9]) == mask
-		okR := core.TermOf(pargs[10]).Key() == core.TermOf(extractOf(enc, 1)).Key()
-		okX := core.TermOf(pargs[8]).Key() == paramTerm(fn, 4).Key()
-		okC1 := core.TermOf(pargs[6]).Key() == paramTerm(fn, 5).Key()
-		okC2 := core.Strip(pargs[7]) == extractOf(add, 0)
-		okRing := core.TermOf(pargs[3]).Key() == paramTerm(fn, 6).Key() && core.TermOf(pargs[4]).Key() == paramTerm(fn, 7).Key() && core.TermOf(pargs[5]).Key() == paramTerm(fn, 8).Key()
+		okY := rv(pargs[9]) == mask
+		okR := rv(pargs[10]) == extractOf(enc, 1)
+		okX := rt(pargs[8]).Key() == paramTerm(fn, 4).Key()
+		okC1 := rt(pargs[6]).Key() == paramTerm(fn, 5).Key()
+		okC2 := rv(pargs[7]) == extractOf(add, 0)
+		okRing := rt(pargs[3]).Key() == paramTerm(fn, 6).Key() && rt(pargs[4]).Key() == paramTerm(fn, 7).Key() && rt(pargs[5]).Key() == paramTerm(fn, 8).Key()
 		c.r.Check(okY && okR && okX && okC1 && okC2 && okRing, rule, fkey(rule, fn, "proof-statement"), c.pos(pv),
 			"Bob's proof is about (c1=cA, c2=cB, x=b, y=mask, r=encryption randomness) under Alice's ring-Pedersen parameters",
 			fmt.Sprintf("proof statement mismatch: y-is-mask=%v r-is-enc-randomness=%v x-is-b=%v c1-is-cA=%v c2-is-cB=%v ring-is-A=%v", okY, okR, okX, okC1, okC2, okRing))
 		// cB = HomoAdd(HomoMult(b, cA), Enc(mask))
-		okMult := core.TermOf(mult.Call.Args[1]).Key() == paramTerm(fn, 4).Key() && core.TermOf(mult.Call.Args[2]).Key() == paramTerm(fn, 5).Key()
-		a1, a2 := core.Strip(add.Call.Args[1]), core.Strip(add.Call.Args[2])
+		okMult := rt(mult.Call.Args[1]).Key() == paramTerm(fn, 4).Key() && rt(mult.Call.Args[2]).Key() == paramTerm(fn, 5).Key()
+		a1, a2 := rv(add.Call.Args[1]), rv(add.Call.Args[2])
 		m0, e0 := extractOf(mult, 0), extractOf(enc, 0)
 		okAdd := (a1 == m0 && a2 == e0) || (a1 == e0 && a2 == m0)
 		c.r.Check(okMult && okAdd, rule, fkey(rule, fn, "cB=b*cA+Enc(mask)"), c.pos(add), "cB = HomoAdd(HomoMult(b,cA), Enc(mask))", "the response ciphertext is not HomoAdd(HomoMult(b,cA), Enc(mask))")
@@ -190,27 +221,27 @@ func c13Mask(c *ctx) {
 		why := ""
 		for _, b := range nilErrReturnBlocks(fn, 4) {
 			ret := b.Instrs[len(b.Instrs)-1].(*ssa.Return)
-			beta := core.TermOf(ret.Results[0])
+			beta := rt(ret.Results[0])
 			want := func(t *T) bool {
 				if t.Op != "Mod" || !core.IsCurveOrder(t.Args[1]) {
 					return false
 				}
 				s := t.Args[0]
-				return s.Op == "Sub" && core.IsZeroTerm(s.Args[0]) && s.Args[1].Key() == core.TermOf(mask).Key()
+				return s.Op == "Sub" && core.IsZeroTerm(s.Args[0]) && s.Args[1].Key() == rt(mask).Key()
 			}
 			if !want(beta) {
 				okRet = false
 				why += "beta is " + beta.Key() + ", expected (0 - mask) mod q; "
 			}
-			if core.Strip(ret.Results[1]) != extractOf(add, 0) {
+			if rv(ret.Results[1]) != extractOf(add, 0) {
 				okRet = false
 				why += "returned cB is not the HomoAdd result; "
 			}
-			if core.Strip(ret.Results[2]) != mask {
+			if rv(ret.Results[2]) != mask {
 				okRet = false
 				why += "returned betaPrm is not the mask; "
 			}
-			if core.Strip(ret.Results[3]) != extractOf(pv, 0) {
+			if rv(ret.Results[3]) != extractOf(pv, 0) {
 				okRet = false
 				why += "returned proof is not the proof computed; "
 			}
